@@ -95,6 +95,31 @@ static bool hasNonCornerVertex(const Manifold& operand, uint64_t m, int N) {
   }
   return false;
 }
+// A voxel solid that is pinched: two of its parts touch only along a lattice edge (the four voxels around the edge are
+// filled diagonally) or only at a lattice vertex (two diagonally opposite voxels of the eight around it, nothing else).
+// Such a solid is a legitimate operand for the regularized set semantics, but it is not a 2-manifold point set.
+static bool isPinched(uint64_t m, int N) {
+  auto bit = [&](int x, int y, int z) { return (x < 0 || y < 0 || z < 0 || x >= N || y >= N || z >= N) ? 0 : int((m >> ((x * N + y) * N + z)) & 1); };
+  for (int x = -1; x < N; ++x)
+    for (int y = -1; y < N; ++y)
+      for (int z = -1; z < N; ++z) {
+        // edges through the lattice point (x+1,y+1,z+1): the 2x2 blocks of the 2x2x2 neighbourhood, per axis and side
+        int o[2][2][2], cnt = 0;
+        for (int a = 0; a < 2; ++a)
+          for (int b = 0; b < 2; ++b)
+            for (int c2 = 0; c2 < 2; ++c2) cnt += o[a][b][c2] = bit(x + a, y + b, z + c2);
+        for (int s = 0; s < 2; ++s) {
+          if ((o[s][0][0] && o[s][1][1] && !o[s][0][1] && !o[s][1][0]) || (!o[s][0][0] && !o[s][1][1] && o[s][0][1] && o[s][1][0])) return true;  // edge along x
+          if ((o[0][s][0] && o[1][s][1] && !o[0][s][1] && !o[1][s][0]) || (!o[0][s][0] && !o[1][s][1] && o[0][s][1] && o[1][s][0])) return true;  // along y
+          if ((o[0][0][s] && o[1][1][s] && !o[0][1][s] && !o[1][0][s]) || (!o[0][0][s] && !o[1][1][s] && o[0][1][s] && o[1][0][s])) return true;  // along z
+        }
+        if (cnt == 2)
+          for (int a = 0; a < 2; ++a)
+            for (int b = 0; b < 2; ++b)
+              if (o[a][b][0] && o[1 - a][1 - b][1]) return true;  // vertex pinch
+      }
+  return false;
+}
 // key class of a failing lattice case, from its result-mesh operands (pairs of mesh and voxel mask)
 static std::string latticeKeyFor(const std::vector<std::pair<Manifold, uint64_t>>& resultOperands, int N, const std::string& prog, std::string& note) {
   for (auto& o : resultOperands)
@@ -106,6 +131,11 @@ static std::string latticeKeyFor(const std::vector<std::pair<Manifold, uint64_t>
     if (hasNonCornerVertex(o.first, o.second, N)) {
       note = " [a result mesh used as operand has a vertex that is not a corner of its solid]";
       return "lattice-nonminimal-operand:" + prog;
+    }
+  for (auto& o : resultOperands)
+    if (isPinched(o.second, N)) {
+      note = " [an operand formed during evaluation is a solid pinched along an edge or at a vertex]";
+      return "lattice-pinched-operand:" + prog;
     }
   note = "";
   return "lattice:" + prog;
@@ -387,7 +417,10 @@ int main(int argc, char** argv) {
                 Manifold in2 = in1.Boolean(boxManifold(C), o2);
                 uint64_t m1 = voxOp(voxMask(A, N), voxMask(B, N), o1), m2 = voxOp(m1, voxMask(C, N), o2);
                 std::string note;
-                std::string key = latticeKeyFor({{in1, m1}, {in2, m2}}, N, prog, note);
+                std::vector<std::pair<Manifold, uint64_t>> cand = {{in1, m1}, {in2, m2}};
+                if (o2 == o3) cand.push_back({boxManifold(shifted(C)).Boolean(boxManifold(D), OpType::Add), voxMask(shifted(C), N) | voxMask(D, N)});
+                if (o1 == o2 && o1 == OpType::Subtract) cand.push_back({boxManifold(B).Boolean(boxManifold(C), OpType::Add), voxMask(B, N) | voxMask(C, N)});
+                std::string key = latticeKeyFor(cand, N, prog, note);
                 if (key.rfind("lattice:", 0) != 0) c.count("violations_with_degenerate_operand");
                 c.viol(key, prog, why + note);
               }
@@ -565,6 +598,10 @@ int main(int argc, char** argv) {
                 std::vector<std::pair<Manifold, uint64_t>> ops = {{ab, voxOp(ma, mb, o1)}};
                 if (chain) ops.push_back({ab.Boolean(boxManifold(C), o2), voxOp(voxOp(ma, mb, o1), mc, o2)});
                 else ops.push_back({boxManifold(C).Boolean(boxManifold(D), o2), voxOp(mc, md, o2)});
+                // operands the evaluator forms by its rewrites: (x-c)-d = x-(c+d), (a-b)-c-d = a-(b+c+d), (x+c)+d, (x^c)^d batches
+                if (chain && o2 == o3) ops.push_back({boxManifold(C).Boolean(boxManifold(D), OpType::Add), mc | md});
+                if (chain && o1 == o2 && o2 == o3 && o1 == OpType::Subtract) ops.push_back({boxManifold(B).Boolean(boxManifold(C), OpType::Add).Boolean(boxManifold(D), OpType::Add), mb | mc | md});
+                if (chain && o1 == o2 && o1 == OpType::Subtract) ops.push_back({boxManifold(B).Boolean(boxManifold(C), OpType::Add), mb | mc});
                 std::string note;
                 std::string key = latticeKeyFor(ops, N, prog, note);
                 if (key.rfind("lattice:", 0) != 0) c.count("violations_with_degenerate_operand");
